@@ -3,3 +3,4 @@ pub mod body;
 pub mod module;
 
 pub use module::*;
+pub mod component;
